@@ -636,3 +636,160 @@ Proof.
   - destruct (IH (fst (step E s now OGet))) as [I1 I2]. rewrite I1, I2. split; reflexivity.
   - destruct (IH (fst (step E s now ODump))) as [I1 I2]. rewrite I1, I2. split; reflexivity.
 Qed.
+
+(* ------------------------------------------------------------------------------------------------ *)
+(** * Composition: states reachable by API histories *)
+
+(* the latest submission's annotations, generator URL, UpdatedAt and Timeout flag are the ones stored *)
+Lemma put_opt_latest (now : Z) cur a :
+  (forall old, cur = Some old -> a_updated old <= a_updated a) ->
+  let r := put_opt now cur a in
+  a_annots r = a_annots a /\ a_gen r = a_gen a /\ a_updated r = a_updated a /\ a_timeout r = a_timeout a.
+Proof.
+  intros H r. subst r. destruct cur as [old|]; simpl; [|auto].
+  destruct (overlaps old a); [|auto]. rewrite merge_no_swap by auto. simpl. auto.
+Qed.
+
+(* [s] is the state after some history of POST / gc / GET operations (no direct Put) on an empty store, with a
+   positive non-decreasing clock that has not passed [now] *)
+Definition reachable (E : env) (now : Z) (s : store) : Prop :=
+  exists h t0, 0 < t0 /\ api_hist h /\ mono_from t0 h /\ last_time t0 h <= now /\ s = run_state E ∅ h.
+
+Lemma reachable_inv (E : env) (now : Z) (s : store) : 0 <= e_rt E -> reachable E now s -> 0 < now /\ inv now s.
+Proof.
+  intros Hrt (h & t0 & H0 & A & M & L & ->). pose proof (last_time_ge h t0 M). split; [lia|].
+  eapply inv_mono; [exact L|]. apply run_inv; auto. apply inv_empty.
+Qed.
+
+Lemma run_state_app (E : env) h1 : forall (s : store) h2,
+  run_state E s (h1 ++ h2) = run_state E (run_state E s h1) h2.
+Proof.
+  induction h1 as [|[now o] h1 IH]; intros s h2; [reflexivity|].
+  rewrite <- app_comm_cons, !run_state_cons. apply IH.
+Qed.
+
+Lemma mono_from_app h1 : forall t0 h2, mono_from t0 h1 -> mono_from (last_time t0 h1) h2 -> mono_from t0 (h1 ++ h2).
+Proof.
+  induction h1 as [|[now o] h1 IH]; intros t0 h2 M1 M2; [exact M2|]. simpl in *. destruct M1. split; auto.
+Qed.
+
+Lemma last_time_app h1 : forall t0 h2, last_time t0 (h1 ++ h2) = last_time (last_time t0 h1) h2.
+Proof. induction h1 as [|[now o] h1 IH]; intros t0 h2; [reflexivity|]. simpl. apply IH. Qed.
+
+(* reachability is closed under one more API operation at a later-or-equal instant *)
+Lemma reachable_step (E : env) (now now' : Z) (s : store) o :
+  reachable E now s -> now <= now' -> is_api o = true -> reachable E now' (fst (step E s now' o)).
+Proof.
+  intros (h & t0 & H0 & A & M & L & ->) Hle Ha. exists (h ++ [(now', o)]), t0. repeat split; auto.
+  - apply Forall_app. split; [exact A|]. constructor; [exact Ha|constructor].
+  - apply mono_from_app; [exact M|]. simpl. split; [lia|exact I].
+  - rewrite last_time_app. simpl. lia.
+  - rewrite run_state_app. rewrite run_state_cons. reflexivity.
+Qed.
+
+Section Composed.
+  Variable E : env.
+  Let vn := e_vname E.
+  Let vv := e_vvalue E.
+  Let rt := e_rt E.
+  Hypothesis Hrt : 0 <= rt.
+
+  (* what a POST stores for a label set: put_opt of the batch's last valid alert of that label set over an alert
+     (or nothing) that satisfies the store invariant at [now] *)
+  Lemma reachable_post_last (now : Z) (s : store) b1 p b2 :
+    reachable E now s -> valid_p vn vv now rt p = true ->
+    (forall q, In q b2 -> valid_p vn vv now rt q = true -> a_labels (prep now rt q) <> a_labels (prep now rt p)) ->
+    exists cur,
+      (forall old, cur = Some old -> alert_inv now (a_labels (prep now rt p)) old) /\
+      (cur = None -> s !! a_labels (prep now rt p) = None) /\
+      fst (post vn vv now rt s (b1 ++ p :: b2)) !! a_labels (prep now rt p) = Some (put_opt now cur (prep now rt p)).
+  Proof.
+    intros R V H. destruct (reachable_inv E now s Hrt R) as [Hn I]. apply post_last_inv; auto.
+  Qed.
+
+  (* missing endsAt: receive time + resolve_timeout, and pushed forward by every re-send *)
+  Lemma reachable_resend_pushes_end (now : Z) (s : store) b1 p b2 :
+    reachable E now s -> valid_p vn vv now rt p = true -> p_ends p = 0 ->
+    (forall q, In q b2 -> valid_p vn vv now rt q = true -> a_labels (prep now rt q) <> a_labels (prep now rt p)) ->
+    exists cur r,
+      fst (post vn vv now rt s (b1 ++ p :: b2)) !! a_labels (prep now rt p) = Some r /\
+      r = put_opt now cur (prep now rt p) /\
+      (cur = None -> s !! a_labels (prep now rt p) = None) /\
+      now + rt <= a_ends r /\ a_updated r = now /\ a_timeout r = true /\
+      (cur = None -> a_ends r = now + rt) /\
+      (forall old, cur = Some old -> a_timeout old = true -> a_ends r = now + rt) /\
+      (forall old, cur = Some old -> a_ends r = now + rt \/ (a_ends r = a_ends old /\ a_timeout old = false /\ now + rt < a_ends old)).
+  Proof.
+    intros R V He H. destruct (reachable_post_last now s b1 p b2 R V H) as (cur & C1 & C2 & C3).
+    exists cur, (put_opt now cur (prep now rt p)). split; [exact C3|]. split; [reflexivity|]. split; [exact C2|].
+    assert (En : a_ends (prep now rt p) = now + rt) by (simpl; rewrite He; reflexivity).
+    assert (Un : a_updated (prep now rt p) = now) by reflexivity.
+    assert (Tn : a_timeout (prep now rt p) = true) by (simpl; rewrite He; reflexivity).
+    assert (Hu : forall old, cur = Some old -> a_updated old <= a_updated (prep now rt p)).
+    { intros old Ho. rewrite Un. destruct (C1 old Ho) as (_ & _ & _ & _ & U). exact U. }
+    destruct (put_opt_latest now cur (prep now rt p) Hu) as (_ & _ & L3 & L4).
+    destruct cur as [old|].
+    - destruct (put_opt_timeout_end now rt old (prep now rt p) Hrt En (Hu old eq_refl)) as (T1 & T2 & T3).
+      repeat split; auto; try congruence.
+      + intros o Ho; injection Ho as <-. exact T2.
+      + intros o Ho; injection Ho as <-. destruct T3 as [T3|(T3 & T4 & T5)]; [left; exact T3|].
+        destruct (Z.eq_dec (a_ends old) (now + rt)) as [Q|Q]; [left; lia|right]. repeat split; auto. lia.
+    - simpl. rewrite He. simpl. repeat split; auto; try lia; try discriminate.
+  Qed.
+
+  (* an explicit end that is not in the future resolves the alert immediately: it is stored resolved, a later GET
+     does not list it, and any later gc run deletes it (unless it is re-submitted first) *)
+  Lemma reachable_past_end_resolves (now : Z) (s : store) b1 p b2 :
+    reachable E now s -> valid_p vn vv now rt p = true -> p_ends p <> 0 -> p_ends p <= now ->
+    (forall q, In q b2 -> valid_p vn vv now rt q = true -> a_labels (prep now rt q) <> a_labels (prep now rt p)) ->
+    let s' := fst (post vn vv now rt s (b1 ++ p :: b2)) in
+    exists r,
+      s' !! a_labels (prep now rt p) = Some r /\ resolved_at now r = true /\ p_ends p <= a_ends r <= now /\
+      (forall now', now < now' -> ~ In (to_g (e_route E) (e_status E) r) (get (e_route E) (e_status E) now' s')) /\
+      (forall now', now <= now' -> fst (gc now' s') !! a_labels (prep now rt p) = None /\ In r (snd (gc now' s'))).
+  Proof.
+    intros R V He Hle H s'. destruct (reachable_post_last now s b1 p b2 R V H) as (cur & C1 & C2 & C3).
+    fold s' in C3. exists (put_opt now cur (prep now rt p)). split; [exact C3|].
+    assert (En : a_ends (prep now rt p) = p_ends p).
+    { simpl. destruct (Z.eqb_spec (p_ends p) 0); [contradiction|reflexivity]. }
+    assert (Hu : forall old, cur = Some old -> a_updated old <= a_updated (prep now rt p)).
+    { intros old Ho. destruct (C1 old Ho) as (_ & _ & _ & _ & U). exact U. }
+    destruct (put_opt_past_end now cur (prep now rt p)) as (P1 & P2); [rewrite En; auto|rewrite En; auto|exact Hu|].
+    set (r := put_opt now cur (prep now rt p)) in *.
+    apply resolved_at_spec in P1 as P1'. destruct P1' as [Q1 Q2].
+    assert (Q3 : p_ends p <= a_ends r).
+    { destruct P2 as [P2|(old & _ & P2 & P3 & _)]; rewrite <- En; lia. }
+    split; [exact P1|]. split; [lia|]. split.
+    - intros now' Hn I. apply get_spec in I as (k & a & Ha & Va & Eg).
+      destruct (reachable_inv E now s Hrt R) as [Hpos I0].
+      pose proof (post_keyed vn vv now rt s (b1 ++ p :: b2) (inv_keyed _ _ I0)) as K'. fold s' in K'.
+      assert (a_labels a = a_labels r) by (unfold to_g in Eg; congruence).
+      assert (a = r). { pose proof (K' _ _ Ha) as Ka. pose proof (K' _ _ C3) as Kr. rewrite <- Ka, H0, Kr in Ha. congruence. }
+      subst a. apply visible_spec in Va; [lia|exact Q1].
+    - intros now' Hn. assert (Rn : resolved_at now' r = true) by (apply resolved_at_spec; split; [exact Q1|lia]).
+      split; [rewrite gc_lookup, C3, Rn; reflexivity|]. apply gc_deleted. eauto.
+  Qed.
+
+  (* GET lists exactly the stored alerts whose end has not passed (EndsAt >= now), once each *)
+  Lemma reachable_get_exact (now : Z) (s : store) g :
+    reachable E now s ->
+    (In g (get (e_route E) (e_status E) now s) <->
+     exists k a, s !! k = Some a /\ now <= a_ends a /\ g = to_g (e_route E) (e_status E) a).
+  Proof.
+    intros R. destruct (reachable_inv E now s Hrt R) as [Hn I]. rewrite get_spec. split.
+    - intros (k & a & H & V & ->). exists k, a. split; [exact H|]. split; [|reflexivity].
+      apply visible_spec in V; [exact V|]. destruct (I k a H) as (_ & _ & Q & _). exact Q.
+    - intros (k & a & H & V & ->). exists k, a. split; [exact H|]. split; [|reflexivity].
+      apply visible_spec; [|exact V]. destruct (I k a H) as (_ & _ & Q & _). exact Q.
+  Qed.
+
+  (* gc removes exactly the alerts whose end has been reached, keeps the others unchanged *)
+  Lemma reachable_gc_exact (now : Z) (s : store) (k : key) :
+    reachable E now s ->
+    fst (gc now s) !! k = match s !! k with Some a => if a_ends a <=? now then None else Some a | None => None end.
+  Proof.
+    intros R. destruct (reachable_inv E now s Hrt R) as [Hn I]. rewrite gc_lookup.
+    destruct (s !! k) as [a|] eqn:H; [|reflexivity]. destruct (I k a H) as (_ & _ & Q & _).
+    unfold resolved_at. zb; simpl; try reflexivity; lia.
+  Qed.
+End Composed.
